@@ -147,12 +147,14 @@ WALKER_RULE = (" walker (hook H14): the REAL PageWalker<Blake3Hasher> over an in
                "ops / deeper parent pages) where the model must predict ok / panic and the state. Oracles independent of the model: reference-trie root; every slot of every STORED page whose parent position is internal = reference node (whole store "
                "after every pass: unreported pages unchanged and still right); elision rule (required pages stored, stored pages exist below stored parents, elided bit = not stored for existing children); child-page roots = reference nodes; "
                "PageDiff: a page staying in its bucket names every slot whose content differs from the stored content, a page going to a fresh bucket names every meaningful slot, a cleared page was stored and is not required.")
+BRANCHUPD_FIRSTLEAF = {"cmd": "branchupd-firstleaf", "mode": "branchupd", "cases": {"quick": 1, "thorough": 1}, "corpus": True}
+BRANCHUPD_RUN = {"cmd": "branchupd", "mode": "branchupd", "cases": {"quick": 360, "thorough": 9000}, "shards": {"quick": 4, "thorough": 16}}
 OVERFLOW_RUN = {"cmd": "overflow", "mode": "overflow", "cases": {"quick": 160, "thorough": 3000}, "shards": {"quick": 4, "thorough": 16}}
 UNIT_RULE = (" Unit-level differentials through nomt::verif_api: triepos (every function of trie_pos.rs / page_id.rs / page_region.rs and the page node layout on positions of every depth 1..256, moves, page ids of depth 0..42, "
              "malformed inputs where the Rust asserts); shards (worker ranges, batch ownership, witnessed_start, child-page roots, pending list and the witness exactly as join assembles it, recorded from REAL updates with worker counts "
              "{1,2,3,5,6,7,12,33,64} and root-page terminals straddling region boundaries); delta / delta-log (the priors the real delta builder computes on overlay chains that delete / insert / overwrite the same keys, small and overflow "
              "values, blind writes and read-then-writes; the real Rollback alone: commit, commit_nonblocking busy, truncate, sync, reopen); overflow (chunk / read / AsyncReader / delete / cell codec on a scratch file at every length boundary: "
-             "1333, k*4092 +- 1, the 15 -> 16 pointer spill, up to 4.2 MB). leafupd (the REAL LeafUpdater on caller-supplied base leaves: ingest / digest / merges across following leaves / bulk splits, cells around the size thresholds, overflow cells; produced leaves, separators, cutoffs, the overflow-callback log and the private state after every call). Every line vs the Lean mirror and vs independent harness oracles.")
+             "1333, k*4092 +- 1, the 15 -> 16 pointer spill, up to 4.2 MB). leafupd (the REAL LeafUpdater on caller-supplied base leaves: ingest / digest / merges across following leaves / bulk splits, cells around the size thresholds, overflow cells; produced leaves, separators, cutoffs, the overflow-callback log and the private state after every call). branchupd (hook H14: the REAL BranchUpdater / BranchOpsTracker / BranchGauge / build_branch on base nodes built with the real BranchNodeBuilder, step by step, and the WHOLE real branch stage — run_worker, NodesTracker, index update — on the same level: shared prefixes of 8..31 bytes followed by outsiders, prefix compression stopped inside a node, nodes at BRANCH_NODE_BODY_SIZE and at the merge threshold, bulk splits, KeepChunk splitting, deletes that empty nodes, merges cascading over several nodes, Update of existing separators, 1..3 rounds on the levels the real code produced; produced nodes with every stored separator length, cutoffs, DigestResults, the private ops / gauge after every call, the resulting level and the freed page numbers). Every line vs the Lean mirror and vs independent harness oracles.")
 IMG_RUN = {"cmd": "image", "mode": "image", "cases": {"quick": 24, "thorough": 400}, "shards": {"quick": 8, "thorough": 16}}
 # directed replay (corpus): history 18 of image seed 1000 — 1616 fat-valued keys, half of them under a 200-bit common prefix;
 # the commit that splits the branch node writes a separator whose last bit is lost (see KNOWN finding candidate F13 in the report)
@@ -208,7 +210,7 @@ PROPS = {
                               {"cmd": "image-script", "mode": "image", "args": ["--focus", "script-freelist-reopen"], "cases": {"quick": 1, "thorough": 1}, "corpus": True},
                               {"cmd": "image-range-sweep", "mode": "image", "cases": {"quick": 1, "thorough": 4}, "shards": {"quick": 4, "thorough": 16}, "per_shard_cases": True},
                               {"cmd": "image-branch-merge-sweep", "mode": "image", "cases": {"quick": 1, "thorough": 4}, "shards": {"quick": 4, "thorough": 16}, "per_shard_cases": True},
-                              {"cmd": "image-branch-ops", "mode": "image", "cases": {"quick": 8, "thorough": 160}, "shards": {"quick": 8, "thorough": 16}}, dict(IMG_RUN), dict(WAL_RUN), dict(TRIEPOS_RUN), dict(OVERFLOW_RUN), dict(LEAFUPD_RUN), dict(WALKER_RUN)] + BITOPS_RUNS + CRASH_IMAGES,
+                              {"cmd": "image-branch-ops", "mode": "image", "cases": {"quick": 8, "thorough": 160}, "shards": {"quick": 8, "thorough": 16}}, dict(IMG_RUN), dict(WAL_RUN), dict(TRIEPOS_RUN), dict(OVERFLOW_RUN), dict(LEAFUPD_RUN), dict(WALKER_RUN), dict(BRANCHUPD_RUN)] + BITOPS_RUNS + CRASH_IMAGES,
         "rule": IMG_RULE + CRASH_IMAGES_RULE + WAL_RULE + BITOPS_RULE + UNIT_RULE + WALKER_RULE,
         "trusted_base": IMG_TB, "assumptions": IMG_ASSUME,
     },
@@ -218,7 +220,7 @@ PROPS = {
                  {"cmd": "image-cycles", "mode": "image", "args": ["--cycles", "10", "--keys", "300"], "cases": {"quick": 1, "thorough": 1}, "corpus": True, "leaks_fail": True},
                  {"cmd": "image-cycles", "mode": "image", "args": ["--cycles", "8", "--keys", "2500"], "cases": {"quick": 0, "thorough": 1}, "corpus": True, "leaks_fail": True, "thorough_only": True},
                  {"cmd": "image-script", "mode": "image", "args": ["--focus", "script-freelist-reopen"], "cases": {"quick": 1, "thorough": 1}, "corpus": True, "leaks_fail": True},
-                 dict(IMG_RUN, leaks_fail=True), dict(ALLOC_FL), dict(ALLOC_PROBE), dict(OVERFLOW_RUN), dict(LEAFUPD_RUN)] + CRASH_IMAGES[:3],
+                 dict(IMG_RUN, leaks_fail=True), dict(ALLOC_FL), dict(ALLOC_PROBE), dict(OVERFLOW_RUN), dict(LEAFUPD_RUN), dict(BRANCHUPD_RUN)] + CRASH_IMAGES[:3],
         "rule": IMG_RULE + ALLOC_RULE + CRASH_IMAGES_RULE + " After a crash: the occupancy reported by the HANDLE THAT RECOVERED the directory (after its follow-up commit) is compared with the full buckets of the table it leaves (counter recovered_occupancy_compared)." + " C19 (accounting): for ln and bbn every page number in [1, bump) must be in use by the decoded state (leaf / overflow / branch) or tracked by the "
                 "free list (free-list page or listed free page), and no page may be both; the driver prints ln_leaked / bbn_leaked per snapshot and any non-zero value is reported as "
                 "`C19 leaked pages: …`; hash-table occupancy: the value returned by Nomt::hash_table_utilization().occupied at every snapshot must equal the number of full meta bytes the decoder finds (ht_full), which in turn must equal the number of merkle pages that must be stored (0 for the empty store); frontier: 10 (thorough: 8 x 2500 keys, several free-list pages) identical fill / refill-with-migrating-value-sizes / empty cycles, criterion fixed in advance: ln_bump and bbn_bump read from the meta page after the last cycle must not exceed those after cycle 4.",
@@ -254,7 +256,7 @@ PROPS = {
             # range-delete sweep: a fresh bulk-loaded store per length, one commit deleting a run of L keys inside one branch node (4 shards = 4 quarters of the sweep)
             {"cmd": "image-range-sweep", "cases": {"quick": 1, "thorough": 4}, "shards": {"quick": 4, "thorough": 16}, "per_shard_cases": True},
             {"cmd": "image-branch-merge-sweep", "cases": {"quick": 1, "thorough": 4}, "shards": {"quick": 4, "thorough": 16}, "per_shard_cases": True},
-            dict(OVERFLOW_RUN), dict(LEAFUPD_RUN),
+            dict(OVERFLOW_RUN), dict(LEAFUPD_RUN), dict(BRANCHUPD_RUN), dict(BRANCHUPD_FIRSTLEAF),
             DB("kv", 160, 1600, nops=16, big=True),
             DB("kv", 6, 60, nops=20, big=True, scale=100, shards_q=6),
             DB("general", 80, 800, nops=14),
